@@ -27,6 +27,10 @@ class Hang(Exception):
     pass
 
 
+class Lost(Exception):
+    """Lines the daemon must have written never arrived."""
+
+
 class Died(Exception):
     pass
 
@@ -169,7 +173,7 @@ def _abort_site(stderr):
 
 class Daemon(object):
     def __init__(self, build, conf_text, leaks=True, env=None, args=("-n",), hooks=True,
-                 watchdog=30.0, keep=False, wrapper=()):
+                 watchdog=30.0, keep=False, wrapper=(), transport=None, sndbuf=4608):
         self.build = build
         self.dir = tempfile.mkdtemp(prefix="iauthd-verif-", dir=SCRATCH_ROOT)
         self.conf_path = os.path.join(self.dir, "iauthd.conf")
@@ -191,10 +195,26 @@ class Daemon(object):
             e.update(env)
         self.errpath = os.path.join(self.dir, "stderr.txt")
         self.errf = open(self.errpath, "wb")
-        self.p = subprocess.Popen(list(wrapper) + [build["exe"]] + list(args) + ["-f", self.conf_path],
-                                  stdin=subprocess.PIPE, stdout=subprocess.PIPE, stderr=self.errf,
-                                  cwd=self.dir, env=e, bufsize=0)
-        self.ofd = self.p.stdout.fileno()
+        self.sock = None
+        if transport == "socketpair":
+            # the way an IRC server starts its helper: ONE end of a socket pair is both its standard input and its standard output
+            # (one open file description: a flag such as O_NONBLOCK set through one descriptor holds for the other); the daemon's
+            # send buffer is small, so that a reader who falls behind makes its writes wait
+            import socket
+            ours, theirs = socket.socketpair()
+            theirs.setsockopt(socket.SOL_SOCKET, socket.SO_SNDBUF, sndbuf)
+            self.p = subprocess.Popen(list(wrapper) + [build["exe"]] + list(args) + ["-f", self.conf_path],
+                                      stdin=theirs.fileno(), stdout=theirs.fileno(), stderr=self.errf,
+                                      cwd=self.dir, env=e, bufsize=0)
+            theirs.close()
+            self.sock = ours
+            self.ofd = self.ifd = ours.fileno()
+        else:
+            self.p = subprocess.Popen(list(wrapper) + [build["exe"]] + list(args) + ["-f", self.conf_path],
+                                      stdin=subprocess.PIPE, stdout=subprocess.PIPE, stderr=self.errf,
+                                      cwd=self.dir, env=e, bufsize=0)
+            self.ofd = self.p.stdout.fileno()
+            self.ifd = self.p.stdin.fileno()
         self.buf = b""
         self.nsync = 0
         self.banner = []
@@ -221,14 +241,20 @@ class Daemon(object):
                         raise Died()
                     self.buf += chunk
                 continue
-            chunk = os.read(self.ofd, 65536)
+            try:
+                chunk = os.read(self.ofd, 65536)
+            except ConnectionResetError:
+                chunk = b""
             if not chunk:
                 raise Died()
             self.buf += chunk
 
     def _write(self, data):
         try:
-            self.p.stdin.write(data)
+            if self.sock is not None:
+                self.sock.sendall(data)
+            else:
+                self.p.stdin.write(data)
         except (BrokenPipeError, OSError):
             raise Died()
 
@@ -267,8 +293,9 @@ class Daemon(object):
         self._write(data)
         return self._collect_until("#verif sync %d" % self.nsync)
 
-    def steps(self, lines):
-        """Pipeline many lines (one logical write); returns list of per-line outputs."""
+    def steps(self, lines, lazy=False):
+        """Pipeline many lines (one logical write); returns list of per-line outputs.  lazy: a reader who falls behind - output
+        is read only while no more input can be written (the daemon's writes then have to wait for the reader)."""
         base = self.nsync
         data = []
         for ln in lines:
@@ -277,7 +304,7 @@ class Daemon(object):
                 ln = ln.encode("latin-1")
             data.append(ln + b"\n-1 # sync %d\n" % self.nsync)
         blob = b"".join(data)
-        fd_in = self.p.stdin.fileno()
+        fd_in = self.ifd
         os.set_blocking(fd_in, False)
         last = b"#verif sync %d\n" % self.nsync
         deadline = time.time() + self.watchdog + 0.001 * len(lines)
@@ -289,7 +316,12 @@ class Daemon(object):
                 if time.time() > deadline:
                     raise Hang()
                 wl = [fd_in] if pos < len(blob) else []
-                r, w, _ = select.select([self.ofd], wl, [], 1.0)
+                if lazy and wl:
+                    r, w, _ = select.select([], wl, [], 0)
+                    if not w:
+                        r, w, _ = select.select([self.ofd], wl, [], 1.0)
+                else:
+                    r, w, _ = select.select([self.ofd], wl, [], 1.0)
                 if r:
                     c = os.read(self.ofd, 1 << 18)
                     if not c:
@@ -327,6 +359,9 @@ class Daemon(object):
                 k += 1
             else:
                 cur.append(ln)
+        if len(outs) != len(lines):
+            # the last acknowledgement arrived but earlier ones are missing: output was lost on the way
+            raise Lost("%d of %d acknowledgements missing" % (len(lines) - len(outs), len(lines)))
         return outs
 
     def raw(self, data):
@@ -367,7 +402,11 @@ class Daemon(object):
         """Close stdin, wait for exit; returns Result."""
         res = Result()
         try:
-            self.p.stdin.close()
+            if self.sock is not None:
+                import socket
+                self.sock.shutdown(socket.SHUT_WR)
+            else:
+                self.p.stdin.close()
         except Exception:
             pass
         deadline = time.time() + (timeout or self.watchdog)
@@ -396,6 +435,8 @@ class Daemon(object):
             res.signal = None
             res.exit = None
         self.errf.close()
+        if self.sock is not None:
+            self.sock.close()
         with open(self.errpath, "rb") as f:
             res.stderr = f.read().decode("latin-1")
         res.sanitizer = parse_sanitizer(res.stderr)
@@ -413,6 +454,8 @@ class Daemon(object):
             pass
         try:
             self.errf.close()
+            if self.sock is not None:
+                self.sock.close()
         except Exception:
             pass
         if not self.keep:
@@ -439,7 +482,8 @@ def wait_quiescent(d, timeout=30.0):
             continue
         try:
             n = array.array("i", [0])
-            fcntl.ioctl(d.p.stdin.fileno(), termios.FIONREAD, n)
+            # bytes written that the daemon has not read yet (pipe: FIONREAD of the pipe; socket pair: our unread output queue)
+            fcntl.ioctl(d.ifd, termios.TIOCOUTQ if d.sock is not None else termios.FIONREAD, n)
             st = open("/proc/%d/stat" % d.p.pid).read().rsplit(")", 1)[1].split()[0]
         except (OSError, IndexError, ValueError):
             return False
@@ -460,15 +504,16 @@ def wait_quiescent(d, timeout=30.0):
     return False
 
 
-def run_batch(build, conf_text, data, leaks=True, env=None, timeout=30.0, hooks=False, args=("-n",), pause_at=None, pause_s=0.0, on_pause=None, ready=None, wrapper=()):
+def run_batch(build, conf_text, data, leaks=True, env=None, timeout=30.0, hooks=False, args=("-n",), pause_at=None, pause_s=0.0, on_pause=None, ready=None, wrapper=(), transport=None):
     """Feed raw bytes, close stdin, return (stdout lines, Result).  No sync lines are added.
-    pause_at / pause_s: stop writing at that byte offset for that many seconds (stdin stays open) so that real timers can run."""
-    d = Daemon(build, conf_text, leaks=leaks, env=env, hooks=hooks, watchdog=timeout, args=args, wrapper=wrapper)
+    pause_at / pause_s: stop writing at that byte offset for that many seconds (stdin stays open) so that real timers can run.
+    transport="socketpair": input and output over ONE socket, read only while nothing more can be written (a reader who falls behind)."""
+    d = Daemon(build, conf_text, leaks=leaks, env=env, hooks=hooks, watchdog=timeout, args=args, wrapper=wrapper, transport=transport)
     try:
         # writer must not block forever if the daemon dies
         pos = 0
         out_chunks = []
-        fd_in = d.p.stdin.fileno()
+        fd_in = d.ifd
         os.set_blocking(fd_in, False)
         deadline = time.time() + timeout
         died = False
@@ -505,9 +550,17 @@ def run_batch(build, conf_text, data, leaks=True, env=None, timeout=30.0, hooks=
                 if died:
                     break
                 continue
-            r, w, _ = select.select([d.ofd], [fd_in], [], 1.0)
+            if transport:
+                r, w, _ = select.select([], [fd_in], [], 0)
+                if not w:
+                    r, w, _ = select.select([d.ofd], [fd_in], [], 1.0)
+            else:
+                r, w, _ = select.select([d.ofd], [fd_in], [], 1.0)
             if r:
-                c = os.read(d.ofd, 65536)
+                try:
+                    c = os.read(d.ofd, 65536)
+                except ConnectionResetError:
+                    c = b""
                 if not c:
                     died = True
                     break
@@ -522,6 +575,7 @@ def run_batch(build, conf_text, data, leaks=True, env=None, timeout=30.0, hooks=
                 except (BrokenPipeError, OSError):
                     died = True
                     break
+        os.set_blocking(fd_in, True)
         d.buf = b"".join(out_chunks) + d.buf
         res = d.finish(timeout=max(1.0, deadline - time.time()))
         return res.tail, res
